@@ -173,7 +173,9 @@ def one_line_sources():
         for pat in ("x" * n, "Feature: " + "x" * n, "a/" * (n // 2), "\u00e9" * n, "dir/" + "x" * n + ".feature", "/" + "y" * n, "Given " + "z" * n + "\\"):
             out.append(pat)
     out += ["Feature: Import a .feature", "features/login.feature", "features/login.feature.md", "x.FEATURE", " .feature", "Scenario: see docs/readme.md", "~", "~/x.feature", "C:\\x\\y.feature",
-            "file:///tmp/x.feature", "..", "...", "./", "//", "a\\b", "*", "?", "[", "[a-z].feature", "$HOME", "%TEMP%", "con", "nul", "-", "--help", "\\\\server\\share"]
+            "file:///tmp/x.feature", "..", "...", "./", "//", "a\\b", "*", "?", "[", "[a-z].feature", "$HOME", "%TEMP%", "con", "nul", "-", "--help", "\\\\server\\share",
+            "//[TODO]", "// Login feature [draft]", "http://[::1", "Feature://[::1", "file://[x", "s3://bucket/x.feature", "//\u2100/x", "//a\uff0fb", "x://]", "mailto:a@[b", "data:,Feature", "zip://a!b",
+            "%", "%zz", "%00", "a\x00b", "{0}", "{", "%s", "%(x)s", "\\N{x}", "\\u12", "&amp;", "<a>", "${", "`x`", "$(x)"]
     return out
 
 
